@@ -18,6 +18,10 @@ HARNESSES = [
     H("c15_thread_names::c15_n2_na_na", loops=L, desc="2 threads: both named"),
     H("c15_thread_names::c15_n3_un_na_na", loops=L, desc="3 threads: unnamed, named, named"),
     H("c15_thread_names::c15_n3_na_un_na", loops=L, desc="3 threads: named, unnamed, named"),
+    H("c15_thread_names::c15_n1_empty", loops=L, desc="1 thread with an empty (readable) name"),
+    H("c15_thread_names::c15_n2_empty_na", loops=L, desc="2 threads: empty name, named"),
+    H("c15_thread_names::c15_n2_na_empty", loops=L, desc="2 threads: named, empty name"),
+    H("c15_thread_names::c15_n3_na_empty_un", loops=L, tier="thorough", desc="3 threads: named, empty name, unnamed"),
     H("c15_thread_names::c15_n3_un_un_na", loops=L, tier="thorough", desc="3 threads: unnamed, unnamed, named"),
     H("c15_thread_names::c15_n3_na_na_un", loops=L, tier="thorough", desc="3 threads: named, named, unnamed"),
     H("c15_thread_names::c15_n4_un_na_un_na", loops=L, tier="thorough", desc="4 threads alternating"),
